@@ -1050,9 +1050,13 @@ package main
 //@   modifies inferred
 //@   ensures [C13] answered: outTotal > old(outTotal)
 //@ func (t *Topic) replyGetDel(sess *Session, asUid types.Uid, req *MsgGetOpts, msg *ClientComMessage) (err error)
-//@   requires [C13] t != nil && sess != nil && msg != nil
+//@   requires [C13,C04] t != nil && sess != nil && msg != nil
 //@   modifies inferred
 //@   ensures [C13] answered: outTotal > old(outTotal)
+// (what a reader is told about deletions comes from the stored log, whatever the cached counters say: a well-formed
+// request by a reader always consults it, and what it returns is what is reported)
+//@   ensures [C04] log_always_consulted: (req == nil || (req.IfModifiedSince == nil && req.User == "" && req.Topic == "")) && (asUid in t.perUser) && (effMode(t, asUid) & types.ModeRead) != 0 ==> called("GetDeleted") == old(called("GetDeleted")) + 1
+//@   assert at call GetDeleted [C04] own_log: $1 == t.name && $2 == asUid
 //@ func (t *Topic) replyDelTopic(sess *Session, asUid types.Uid, msg *ClientComMessage) (err error)
 //@   requires [C13] t != nil && sess != nil && msg != nil
 //@   modifies inferred
@@ -1092,3 +1096,12 @@ package main
 //@   modifies *
 //@   assert at call Delete [C03] marked_before_unregistered: called("markDeleted") == old(called("markDeleted")) + 1
 //@   ensures [C03] stopped_topic_is_marked: dynptr(t, Topic) != nil && sent(old(dynptr(t, Topic).exit)) > old(sent(dynptr(t, Topic).exit)) ==> called("markDeleted") == old(called("markDeleted")) + 1
+
+// C07/C06: default access. Nobody is admitted to a search topic by default (only its own user ever attaches, through
+// 'fnd'), unauthenticated users get nothing anywhere, and no default carries ownership.
+//@ func getDefaultAccess(cat types.TopicCat, authUser bool, isChan bool) (res types.AccessMode)
+//@   modifies nothing
+//@   ensures [C07] search_topic_admits_nobody: cat == types.TopicCatFnd ==> res == types.ModeNone
+//@   ensures [C07] anonymous_gets_nothing: !authUser ==> res == types.ModeNone
+//@   ensures [C06,C07] no_default_ownership: (res & types.ModeOwner) == 0
+//@   ensures [C07] p2p_default_within_p2p: cat == types.TopicCatP2P ==> (res & ^types.ModeCP2P) == 0
